@@ -196,7 +196,7 @@ func buildScalar(sp *ScalarSpec) (fourCalls, error) {
 	switch sp.Shape {
 	case 0:
 		fi, fs, fc, ft := scalarNatives[string, int](sp, sp.Out, lastInt(sp.Out))
-		i, s, c, t := compose.VerifPack(fi, fs, fc, ft)
+		i, s, c, t := c04Pack(fi, fs, fc, ft)
 		return callsOf[string, int](packRunnable[string, int]{i, s, c, t}, "x", []string{"x"}), nil
 	case 1:
 		g := compose.NewGraph[string, string]()
